@@ -200,15 +200,21 @@ func C12Scenario() *Scenario {
 							if p.Get(w) == nil {
 								continue
 							}
-							failed, recovered := 0, false
+							failed, lastFailure, recovered := 0, 0, false
 							for _, h := range w.Hooks {
 								if (h.Kind != "sync" && h.Kind != "finalize") || !hookParentIs(h, parentKey, p) {
 									continue
 								}
-								if h.ParkStep > startStep && h.ParkStep <= endStep && h.Code != 200 {
+								if h.ParkStep > startStep && h.Code != 200 {
 									failed++
+									if h.Arrival > lastFailure {
+										lastFailure = h.Arrival
+									}
 								}
-								if h.ParkStep > endStep && h.Code == 200 {
+							}
+							for _, h := range w.Hooks {
+								// a successful call made after the last failed one
+								if (h.Kind == "sync" || h.Kind == "finalize") && hookParentIs(h, parentKey, p) && h.Code == 200 && h.Arrival > lastFailure {
 									recovered = true
 								}
 							}
